@@ -151,7 +151,9 @@ func (r *agentRun) do(c ref.AgentCall) (ret string, events []ref.AgentEvent, tok
 // the model's. A final Close is appended: afterwards nothing may be pending.
 func runC13(calls []ref.AgentCall) error {
 	r := newAgentRun()
-	seq := append(append([]ref.AgentCall(nil), calls...), ref.AgentCall{Op: "close"}, ref.AgentCall{Op: "collect", T: 1 << 40}, ref.AgentCall{Op: "start", ID: 0, T: 1})
+	seq := append(append([]ref.AgentCall(nil), calls...), ref.AgentCall{Op: "close"}, ref.AgentCall{Op: "collect", T: 1 << 40}, ref.AgentCall{Op: "start", ID: 0, T: 1},
+		ref.AgentCall{Op: "process", ID: 0}, ref.AgentCall{Op: "stop", ID: 0}, ref.AgentCall{Op: "stoperr", ID: 1, E: 0}, ref.AgentCall{Op: "sethandler", H: 1},
+		ref.AgentCall{Op: "process", ID: 2}, ref.AgentCall{Op: "close"})
 	for i, c := range seq {
 		var ret string
 		var got []ref.AgentEvent
